@@ -2,4 +2,6 @@
 namespace sim {
 int batchMain(int argc, char **argv);
 int replayMain(int argc, char **argv);
+// print the plan of run <index> of a batch: --prop P --seed S --tier T --index I
+int genRunMain(int argc, char **argv);
 }
